@@ -121,7 +121,10 @@ def obs_synset_x(wn, s):
             'by_type': {k: [_synref(t) for t in s.get_related(k)] for k in s.relations()},
             'translate': {_spec(l): [_synref(t) for t in s.translate(lexicon=_spec(l))] for l in wn.lexicons()},
             'closure_hypernym': [_synref(t) for t in s.closure('hypernym', 'instance_hypernym')],
-            'hypernym_paths': [[_synref(t) for t in p] for p in s.relation_paths('hypernym', 'instance_hypernym')]}
+            'hypernym_paths': [[_synref(t) for t in p] for p in s.relation_paths('hypernym', 'instance_hypernym')],
+            # the taxonomy entry points over the same relation (wn.taxonomy / Synset shortcut methods)
+            'tax_paths': [[_synref(t) for t in p] for p in s.hypernym_paths()],
+            'depths': [s.min_depth(), s.max_depth()]}
 
 
 def obs_sense_x(wn, s):
@@ -263,7 +266,9 @@ def canon_battery(b, sort_forms_tail=True):
                    'by_type': {k: sorted(v, key=_k) for k, v in sorted(x.get('by_type', {}).items())},
                    'translate': {k: (sorted(v, key=_k) if isinstance(v, list) else v) for k, v in sorted(x.get('translate', {}).items())},
                    'closure_hypernym': sorted(x['closure_hypernym'], key=_k),
-                   'hypernym_paths': sorted(x['hypernym_paths'], key=_k)})
+                   'hypernym_paths': sorted(x['hypernym_paths'], key=_k),
+                   'tax_paths': sorted(x.get('tax_paths', x['hypernym_paths']), key=_k),
+                   'depths': x.get('depths', [min([len(p) for p in x['hypernym_paths']] or [0]), max([len(p) for p in x['hypernym_paths']] or [0])])})
     sc['synsets_x'] = sorted(xs, key=_k)
     ys = []
     for x in b['scope'].get('senses_x', []):
